@@ -94,7 +94,7 @@ func main() {
 				base[k] = true
 			}
 			var n2 []string
-			ov, n2 = core.Normalize(abs, ov, *goarch, base)
+			ov, n2 = core.Normalize(abs, ov, *goarch, base, bl)
 			normNotes = append(append(normNotes, n1...), n2...)
 		}
 	}
